@@ -1,0 +1,50 @@
+//go:build verif
+
+// Contracts for the contract-based verification in /verif (comment-only file).
+
+package dataplane
+
+//@ import net "net"
+//@ import gopacket "github.com/gopacket/gopacket"
+//@ import pktcls "github.com/scionproto/scion/gateway/pktcls"
+//@ import control "github.com/scionproto/scion/gateway/control"
+
+//@ # ---- C42: most specific prefix, traffic classes in order.
+//@ # assumed (net): Contains and Mask.Size are functions of the prefix object / the mask bytes; sizes are 0..128
+//@ spec func inPrefix(n *net.IPNet, ip net.IP) bool uninterpreted
+//@ spec func maskSize(m net.IPMask) int uninterpreted
+//@ extern (*net.IPNet).Contains
+//@   modifies nothing
+//@   ensures result == inPrefix(n, ip)
+//@ extern (net.IPMask).Size
+//@   modifies nothing
+//@   ensures result0 == maskSize(m) && 0 <= result0 && result0 <= 128
+
+//@ # an entry routes a packet to the session of its FIRST traffic class that matches (nil if none matches)
+//@ macro tblOK(e) = (forall q int :: 0 <= q && q < len(e.Table) ==> e.Table[q] != nil && e.Table[q].Class != nil)
+//@ ghost var lastE *entry
+//@ func (*entry).route
+//@   props C42
+//@   requires e != nil && tblOK(e)
+//@   modifies lastE
+//@   gset lastE := e
+//@   loop 1 invariant 0 <= (rangeindex+1) && (rangeindex+1) <= len(e.Table)
+//@   loop 1 invariant forall j int :: 0 <= j && j < (rangeindex+1) ==> !pktcls.holds(e.Table[j].Class, pkt)
+//@   ensures (forall i int :: 0 <= i && i < len(e.Table) ==> !pktcls.holds(e.Table[i].Class, pkt)) ==> result == nil
+//@   ensures forall i int :: 0 <= i && i < len(e.Table) && pktcls.holds(e.Table[i].Class, pkt) && (forall j int :: 0 <= j && j < i ==> !pktcls.holds(e.Table[j].Class, pkt)) ==> result == e.Table[i].Session
+
+//@ # the table routes with the entry of the most specific prefix that contains the destination (among equally
+//@ # specific ones the last listed); without a containing prefix there is no route
+//@ macro has(rt, i, dst) = inPrefix(rt.table[i].Prefix, dst)
+//@ macro sz(rt, i) = maskSize(rt.table[i].Prefix.Mask)
+//@ func (*RoutingTable).route
+//@   props C42
+//@   requires rt != nil && forall i int :: 0 <= i && i < len(rt.table) ==> rt.table[i] != nil && rt.table[i].Prefix != nil && tblOK(rt.table[i])
+//@   modifies lastE
+//@   let n = len(rt.table)
+//@   loop 1 invariant 0 <= (rangeindex+1) && (rangeindex+1) <= n && highestMask >= 0
+//@   loop 1 invariant (forall i int :: 0 <= i && i < (rangeindex+1) ==> !has(rt, i, dst)) ==> ret == nil && highestMask == 0 && lastE == old(lastE)
+//@   loop 1 invariant forall i int :: 0 <= i && i < (rangeindex+1) && has(rt, i, dst) ==> sz(rt, i) <= highestMask
+//@   loop 1 invariant (exists i int :: 0 <= i && i < (rangeindex+1) && has(rt, i, dst)) ==> exists k int :: 0 <= k && k < (rangeindex+1) && has(rt, k, dst) && sz(rt, k) == highestMask && lastE == rt.table[k] && (forall i int :: k < i && i < (rangeindex+1) && has(rt, i, dst) ==> sz(rt, i) < highestMask)
+//@   ensures (forall i int :: 0 <= i && i < n ==> !has(rt, i, dst)) ==> result == nil
+//@   ensures (exists i int :: 0 <= i && i < n && has(rt, i, dst)) ==> exists k int :: 0 <= k && k < n && has(rt, k, dst) && lastE == rt.table[k] && (forall i int :: 0 <= i && i < n && has(rt, i, dst) ==> sz(rt, i) <= sz(rt, k)) && (forall i int :: k < i && i < n && has(rt, i, dst) ==> sz(rt, i) < sz(rt, k))
